@@ -2112,6 +2112,13 @@ class TextQueryBackend(Backend):
                 ],
                 cond.source,
             )
+            if len(expanded) > 1 and not self.decide_convert_condition_as_in_expression(
+                expanded_cond, state
+            ):  # the expansion is an OR expression inside of an unknown context: group it
+                return cast(
+                    "str | DeferredQueryExpression",
+                    self.convert_condition_group(expanded_cond, state),
+                )
             return self.convert_condition(expanded_cond, state)
 
     def convert_condition_field_compare_op_val(
